@@ -408,15 +408,23 @@ class Check(CheckBase):
                     idx += 1
         outs = self._run(scenarios, env)
         classes, violations = set(), []
+        abbreviations_rejected = [0]
         for (cmd, subset), sc, out, want in zip(labels, scenarios, outs, expected):
             classes.add(f'repository|{"+".join(subset) or "none"}')
             got = [out.get('short_name') if out.get('short_name') != 'Local' else 'local', out.get('connection')] if out.get('ok') else None
+            abbreviated = any(a in ('--repo', '--prof', '--conf') for a in sc['argv'])
+            if not out.get('ok') and abbreviated and out.get('exit') == 2 and any(
+                    w in (out.get('stderr') or '') for w in ('unrecognized arguments', 'ambiguous option', 'expected one argument')):
+                # a program that does not accept abbreviations at all rejects the command line: nothing was 'given'
+                abbreviations_rejected[0] += 1
+                continue
             if not out.get('ok') or [got[0].lower() if got[0] else None, got[1]] != [want[0], want[1]]:
                 violations.append({'what': f'repository set in {list(subset) or "no source"} ({cmd}): effective {got}, precedence says {want}',
                                    'mechanism': None, 'witness': {'argv': sc['argv'], 'env': sc['env'], 'error': out.get('error'),
                                                                   'stderr': out.get('stderr')}})
         return {'verdict': 'violated' if violations else 'held', 'classes': sorted(classes),
-                'counters': {'invocations': len(outs), 'repository_cells': len(outs)}, 'violations': violations[:5]}
+                'counters': {'invocations': len(outs), 'repository_cells': len(outs), 'abbreviations_rejected_outright': abbreviations_rejected[0]},
+                'violations': violations[:5]}
 
     def _exclusive(self, case, scratch, env):
         pw = os.path.join(scratch, 'pw')
